@@ -312,3 +312,31 @@ M('c15-set-cookie-replaces-jar', 'C15', 'R14', 'falcon/response.py',
 
         try:
 """)
+
+# ---- wave 5: the rendered download name is the assigned value itself (R15)
+M2('c15-disposition-basename-of-pathlike', 'C15', 'R15', [
+    {'file': HELP, 'old': "from __future__ import annotations\n", 'new': "from __future__ import annotations\n\nimport os\n"},
+    {'file': HELP, 'old': '''    """Format a Content-Disposition header given a filename."""
+''', 'new': '''    """Format a Content-Disposition header given a filename."""
+    value = os.path.basename(os.fspath(value))
+'''}])
+M('c15-disposition-last-segment-local', 'C15', 'R15', HELP,
+  '''    """Format a Content-Disposition header given a filename."""
+''', '''    """Format a Content-Disposition header given a filename."""
+    name = value.replace('\\\\', '/').split('/')[-1]
+    value = name
+''')
+M('c15-disposition-star-form-stripped', 'C15', 'R15', HELP,
+  "        uri.encode_value(value),\n", "        uri.encode_value(value.strip()),\n")
+M2('c15-disposition-nfc-before-render', 'C15', 'R15', [
+    {'file': HELP, 'old': "from __future__ import annotations\n", 'new': "from __future__ import annotations\n\nimport unicodedata\n"},
+    {'file': HELP, 'old': '''    if value.isascii():
+        return '%s; filename="%s"' % (disposition_type, value)
+''', 'new': '''    if value.isascii():
+        return '%s; filename="%s"' % (disposition_type, value)
+    value = unicodedata.normalize('NFC', value)
+'''}])
+M('c15-disposition-quoted-form-truncated', 'C15', 'R15', HELP,
+  """        return '%s; filename="%s"' % (disposition_type, value)
+""", """        return '%s; filename="%s"' % (disposition_type, value[:64])
+""")
